@@ -6,7 +6,7 @@ NULL = NULL
 ObjSeq <- ObjSeqDef
 FmtSel = {1, 2}
 RndSel = {1}
-OvfSel = {1}
+OvfSel = {1, 2}
 GridSel = {3, 5}
 Acts <- ActsExt
 Depth = 3
